@@ -25,7 +25,7 @@
    that the extension load order (an unsorted listing of pydoctor's own package) is immaterial. *)
 From Coq Require Import ZArith NArith List Bool Sorting.Permutation.
 From PydoctorVerif Require Import Base.Sexp Model.DetTypes Gen.TablesC18 Model.Determinism Spec.SortSpec
-     Proofs.DeterminismProofs.
+     Proofs.DeterminismProofs Model.DiscoveryIR Gen.DiscoveryCode Proofs.DiscoveryIRProofs.
 Import ListNotations.
 
 (* ------------------------------------------------------------------ obligations on the regenerated tables *)
@@ -120,6 +120,45 @@ Theorem C18_fs_fuel_enough :
   forall (pi : listing), perm_oracle pi -> forall fuel parent name es,
     (fs_depth (FDir name es) <= fuel)%nat -> ~ In EvOutOfFuel (add_package pi fuel parent name es).
 Proof. exact add_package_fuel. Qed.
+
+(* ------------------------------------------------------------------ the tie to the source of the discovery code
+   Gen/DiscoveryCode.v holds the bodies of System.addPackage / addModuleFromPath / _addUnprocessedModule /
+   _handleDuplicateModule, translated statement by statement from the CURRENT pydoctor/model.py into the languages of
+   Model/DiscoveryIR.v (whose interpreter states the meaning of the primitives).  Interpreting THAT code is the model the
+   theorems above are about: for every listing oracle, tree, fuel, registry state and module. *)
+Theorem C18_code_add_module_from_path_is_model :
+  forall (pi : listing) parent name,
+    add_module_ir discovery_code pi parent name = add_module_from_path parent name.
+Proof. exact add_module_ir_eq. Qed.
+
+Theorem C18_code_add_package_is_model :
+  forall (pi : listing) fuel parent name entries,
+    add_package_ir discovery_code pi fuel parent name entries = add_package pi fuel parent name entries.
+Proof. exact add_package_ir_eq. Qed.
+
+Theorem C18_code_add_roots_is_model :
+  forall (pi : listing) fuel roots added,
+    add_roots_ir discovery_code pi fuel added roots = add_roots pi fuel added roots.
+Proof. exact add_roots_ir_eq. Qed.
+
+(* _addUnprocessedModule + _handleDuplicateModule (three-way rule, last-wins branch as repaired by a9f163d / 3d2c96f /
+   f6d4b31): never an assertion failure / ValueError, and the registry of the model *)
+Theorem C18_code_registry_is_model :
+  (forall r parent name is_pkg, reg_add_ir registry_code r parent name is_pkg = Some (reg_add r parent name is_pkg)) /\
+  (forall evs, reg_of_events_ir registry_code evs = Some (reg_of_events evs)).
+Proof. split; [exact reg_add_ir_eq|exact reg_of_events_ir_eq]. Qed.
+
+(* hence C18_fs_order_free, stated on the translated code *)
+Theorem C18_code_fs_order_free :
+  forall (pi1 pi2 : listing), perm_oracle pi1 -> perm_oracle pi2 ->
+  forall fuel roots, (forall r, In r roots -> fs_wf (snd r)) ->
+    add_roots_ir discovery_code pi1 fuel [] roots = add_roots_ir discovery_code pi2 fuel [] roots /\
+    reg_of_events_ir registry_code (add_roots_ir discovery_code pi1 fuel [] roots) =
+    reg_of_events_ir registry_code (add_roots_ir discovery_code pi2 fuel [] roots).
+Proof.
+  intros pi1 pi2 H1 H2 fuel roots Hwf. rewrite !add_roots_ir_eq.
+  pose proof (add_roots_order_free pi1 pi2 H1 H2 fuel roots [] Hwf) as E. split; [exact E|rewrite E; reflexivity].
+Qed.
 
 (* ------------------------------------------------------------------ sort keys *)
 Theorem C18_sort_keys_total : forall lower : text -> text,
